@@ -1,6 +1,8 @@
 import DendroModel.Theory.C02Stmt
 import DendroModel.Theory.C02Assign
 import DendroModel.Theory.C02Fuel
+import DendroModel.Theory.C02List
+import DendroModel.Theory.C02PFuel
 /-! C02 — property theorems about the model of `Model/C02.lean` (the definitions `drv_c02` executes).
 
 Every `theorem` directly inside `namespace DendroModel.C02` of this file is an obligation; helper lemmas live in
@@ -11,9 +13,13 @@ Shape of the argument for Newick (clauses a, b of the design):
   anonymous leaves included)-->  raw tree  --assign (labels → node labels / taxa)-->  tree: `newick_roundtrip`, and in
   readable form `newick_roundtrip_tree` (= `[t]` with its rooting).  `tokenizer_fuel_suffices`: totality on every text.
   Case folding is a parameter (`ROpts.cf`): the theorems hold for every folding, the driver is handed `str.lower`.
-Not proved here (enumeration, correspondence and oracle only): several statements in one text / a pre-filled
-namespace (the `parseStmts` loop across statements), weights through `strip`, the NEXUS block grammar, NeXML,
-float ↔ text. -/
+`newick_list_roundtrip(_trees)`: several statements in one text, read into a pre-filled namespace.
+`weight_roundtrip`, `newick_roundtrip_tree_weighted`: the `[&W w]` comment incl. fractions.
+`nexus_statements_roundtrip_partial`, `nexus_translate_roundtrip_partial`, `resolve_key`: the TREE statements of a NEXUS
+TREES block under the NEXUS symbol mapper (label before number; TRANSLATE token before label).
+`reader_fuel_suffices`, `tokenizer_fuel_suffices`: the fuel of every loop of the reader model is enough on every input.
+Not proved here (correspondence and oracle only): the NEXUS block grammar around the statements (BEGIN TREES, TRANSLATE
+statement text, `TREE name =`, TAXA block), NeXML, float ↔ text. -/
 namespace DendroModel.C02
 open DendroModel.Tables
 
@@ -46,6 +52,16 @@ theorem tokenizer_fuel_suffices (pu : Bool) (inp : Str) :
     exact (Aux.tokenize_fuel_indep pu _ inp (by omega)).symm
 
 example : nextTok false "[a[b]] 'x''y' z_1;".toList ≠ .fuel := (tokenizer_fuel_suffices false _).1
+
+/-- totality of the whole reader model on EVERY text and EVERY option set: running it with any amount of extra fuel
+    (tokenizer, statement loop and recursive-descent parser) gives the same outcome as `parseText` — so an `ERR` of the
+    `parse` / `rt` ops is always a refusal of the reader, never a fuel shortfall (this retires the driver's FUEL rerun).
+    Rests on: every token consumes a character, every statement consumes a token, and the parser's result is
+    independent of its fuel once it exceeds twice the number of tokens (`Aux.fuel_step`). -/
+theorem reader_fuel_suffices (k : Nat) (o : ROpts) (m : Mapper) (text : Str) : parseTextK k o m text = parseText o m text :=
+  Aux.parseTextK_eq k o m text
+
+example : parseTextK 1000 {} {} "((a,b));;(c:1:2,(".toList = parseText {} {} "((a,b));;(c:1:2,(".toList := reader_fuel_suffices _ _ _ _
 
 /-- clause (a): every admissible label (non-empty, over printable ASCII + tab + non-ASCII), written by the Newick
     writer's `escape_nexus_token` call under a consistent option triple and followed by any captured delimiter, is
@@ -86,7 +102,7 @@ def WritesSomething (o : WOpts) (t : NT) : Prop := Aux.isBlank (Aux.toRT o t) = 
     attached to the first token and no other token carries a comment.  For every tree whose tags are over the label
     domain and whose length texts are number texts (`OkT`), under every consistent option triple. -/
 theorem statement_tokens (o : WOpts) (pu : Bool) (hc : Consistent o.ps o.uu pu) (rooting : Nat) (weight : Option Str)
-    (t : NT) (hok : OkT o t) (hll : WritesSomething o t) (hw : ∀ w, weight = some w → LenOk w) :
+    (t : NT) (hok : OkT o t) (hll : WritesSomething o t) (hw : ∀ w, weight = some w → WeightOk w) :
     ∃ first rest, tokenizeAll pu (writeTree o rooting weight t ++ ['\n']) = ⟨first :: rest, true, false⟩ ∧
       (first :: rest).map kind = Aux.view (wrNode o true t) ++ [.semi] ∧
       first.cm = comments o rooting weight ∧ ∀ x ∈ rest, x.cm = [] :=
@@ -99,7 +115,7 @@ open Aux in
     namespace that lists the taxon labels of the tree in reading order.  Hypotheses: consistent options, admissible
     labels and number texts, the tree writes something (`WritesSomething`), taxon labels distinct up to the case folding `ro.cf`. -/
 theorem newick_roundtrip (o : WOpts) (ro : ROpts) (hc : Consistent o.ps o.uu ro.pu) (rooting : Nat) (weight : Option Str)
-    (t : NT) (hok : OkT o t) (hll : WritesSomething o t) (hw : ∀ w, weight = some w → LenOk w)
+    (t : NT) (hok : OkT o t) (hll : WritesSomething o t) (hw : ∀ w, weight = some w → WeightOk w)
     (hd : DistinctCI ro.cf (taxaOf ro (toRT o t))) :
     parseText ro {} (writeTree o rooting weight t ++ ['\n']) =
       some ([⟨(treeComments ro (comments o rooting weight) none none).1,
@@ -230,6 +246,74 @@ theorem weight_absent (o : WOpts) (ro : ROpts) (r : Nat) :
   cases h1 : (r == 0 || o.srt) <;> cases h2 : (r == 2) <;>
     simp [treeComments, s1, s2, isRootingComment]
 
+namespace Aux
+
+theorem stripL_cons (a : Char) (r : Str) (h : isSpace a = false) : stripL (a :: r) = a :: r := by
+  simp [stripL, h]
+
+theorem strip_id (s : Str) (a : Char) (r : Str) (hs : s = a :: r) (ha : isSpace a = false)
+    (b : Char) (t : Str) (hr : s.reverse = b :: t) (hb : isSpace b = false) : strip s = s := by
+  unfold strip
+  rw [hs, stripL_cons a r ha, ← hs, hr, stripL_cons b t hb, ← hr, List.reverse_reverse]
+
+theorem weightChar_not_space (c : Char) (h : lenChar c = true ∨ c = '/') : isSpace c = false := by
+  cases hs : isSpace c with
+  | false => rfl
+  | true =>
+    exfalso
+    simp only [isSpace, Bool.or_eq_true, beq_iff_eq] at hs
+    rcases hs with ((((rfl | rfl) | rfl) | rfl) | rfl) | rfl <;> rcases h with h | h <;> revert h <;> decide
+
+theorem strip_weight (w : Str) (hw : WeightOk w) : strip ('&' :: 'W' :: ' ' :: w) = '&' :: 'W' :: ' ' :: w := by
+  obtain ⟨hne, hall⟩ := hw
+  cases hrev : w.reverse with
+  | nil => simp at hrev; exact absurd hrev hne
+  | cons b t =>
+    have hbm : b ∈ w := by
+      have : b ∈ w.reverse := by rw [hrev]; simp
+      simpa using this
+    refine strip_id _ '&' ('W' :: ' ' :: w) rfl (by decide) b (t ++ [' ', 'W', '&']) ?_ (weightChar_not_space b (hall b hbm))
+    simp [hrev]
+
+end Aux
+
+open Aux in
+/-- weights (`store_tree_weights` on both sides): the `[&W w]` comment the writer emits is recognised by the reader and
+    its expression is exactly the text written (with the separating space: ` w`; the harness applies `float`, or
+    `float/float` for a fraction `a/b`), whether or not a rooting comment precedes it — and the rooting state
+    survives next to an active weight comment (the case `rooting_roundtrip` leaves out). -/
+theorem weight_roundtrip (o : WOpts) (ro : ROpts) (ho : o.stw = true) (hro : ro.stw = true) (r : Nat) (w : Str) (hw : WeightOk w) :
+    (treeComments ro (comments o r (some w)) none none).2 = some (' ' :: w) ∧
+    ((r = 1 ∨ r = 2) →
+      ((o.srt = false ∧ (ro.rooting = 0 ∨ ro.rooting = 3 ∨ ro.rooting = 4 ∨ ro.rooting = r)) ∨ ro.rooting = r) →
+      (treeComments ro (comments o r (some w)) none none).1 = r) := by
+  have s1 : strip ['&', 'R'] = ['&', 'R'] := by decide
+  have s2 : strip ['&', 'U'] = ['&', 'U'] := by decide
+  have s3 := strip_weight w hw
+  have e : "&W ".toList ++ w = '&' :: 'W' :: ' ' :: w := by
+    have : "&W ".toList = ['&', 'W', ' '] := by decide
+    rw [this]; rfl
+  have hnr : isRootingComment ('&' :: 'W' :: ' ' :: w) = false := by simp [isRootingComment]
+  have hiw : isWeightComment ('&' :: 'W' :: ' ' :: w) = true := by simp [isWeightComment]
+  constructor
+  · unfold comments
+    cases h1 : (r == 0 || o.srt) <;> cases h2 : (r == 2) <;>
+      simp [ho, e, treeComments, s1, s2, s3, isRootingComment, hnr, hiw, hro]
+  · intro hr hdir
+    unfold comments
+    rcases hr with rfl | rfl
+    · rcases hdir with ⟨h1, h2⟩ | h2
+      · rcases h2 with h2 | h2 | h2 | h2 <;>
+          simp [h1, ho, e, treeComments, s2, s3, isRootingComment, hnr, hiw, hro, rootingState, h2]
+      · cases o.srt <;> simp [ho, e, treeComments, s2, s3, isRootingComment, hnr, hiw, hro, rootingState, h2]
+    · rcases hdir with ⟨h1, h2⟩ | h2
+      · rcases h2 with h2 | h2 | h2 | h2 <;>
+          simp [h1, ho, e, treeComments, s1, s3, isRootingComment, hnr, hiw, hro, rootingState, h2]
+      · cases o.srt <;> simp [ho, e, treeComments, s1, s3, isRootingComment, hnr, hiw, hro, rootingState, h2]
+
+example : WeightOk "1/2".toList ∧ WeightOk "0.125".toList ∧ WeightOk "1e-05".toList := by
+  refine ⟨⟨by simp, by decide⟩, ⟨by simp, by decide⟩, ⟨by simp, by decide⟩⟩
+
 /-- the readable end-to-end claim for one Newick tree statement, on the definitions the driver runs (`write`, `parse`,
     `rt` ops): under the writer's default label options, consistent underscore/space options and rooting options that
     do not contradict each other, writing a tree `t` with a defined rooting state `r` and reading the text back into
@@ -246,6 +330,20 @@ theorem newick_roundtrip_tree (o : WOpts) (ro : ROpts) (hc : Consistent o.ps o.u
     parseText ro {} (writeTree o r none t ++ ['\n']) = some ([⟨r, none, t⟩], ⟨[], taxaOf ro (Aux.toRT o t), false⟩) := by
   rw [newick_roundtrip o ro hc r none t hok hws (by simp) hd, Aux.carried_tree o ro ho t hcar,
     rooting_roundtrip o ro r hr none (Or.inl rfl) hdir, weight_absent]
+
+/-- `newick_roundtrip_tree` with a tree weight: `store_tree_weights` on both sides, weight text `w` (number or fraction) -/
+theorem newick_roundtrip_tree_weighted (o : WOpts) (ro : ROpts) (hc : Consistent o.ps o.uu ro.pu)
+    (ho : o.sltl = false ∧ o.slnl = true ∧ o.sitl = false ∧ o.sinl = false ∧ o.sel = false)
+    (hsw : o.stw = true) (hrw : ro.stw = true) (w : Str) (hw : WeightOk w)
+    (r : Nat) (hr : r = 1 ∨ r = 2)
+    (hdir : (o.srt = false ∧ (ro.rooting = 0 ∨ ro.rooting = 3 ∨ ro.rooting = 4 ∨ ro.rooting = r)) ∨ ro.rooting = r)
+    (t : NT) (hok : OkT o t) (hws : WritesSomething o t) (hcar : Carried ro t)
+    (hd : DistinctCI ro.cf (taxaOf ro (Aux.toRT o t))) :
+    parseText ro {} (writeTree o r (some w) t ++ ['\n']) =
+      some ([⟨r, some (' ' :: w), t⟩], ⟨[], taxaOf ro (Aux.toRT o t), false⟩) := by
+  have hwr := weight_roundtrip o ro hsw hrw r w hw
+  rw [newick_roundtrip o ro hc r (some w) t hok hws (by intro w' h; cases h; exact hw) hd, Aux.carried_tree o ro ho t hcar,
+    hwr.1, hwr.2 hr hdir]
 
 open Aux in
 /-- clause (a) for BOTH protect classes (the default one is what TAXLABELS / TRANSLATE / tree names are written
@@ -269,6 +367,124 @@ theorem token_roundtrip_any (p : List Char) (hp : p = protectDefault ∨ p = pro
   cases q
   · simpa using hfo.2
   · simp
+
+open Aux in
+/-- tree lists and pre-filled namespaces: a text with SEVERAL statements (what `TreeList.as_string("newick")` writes:
+    every statement followed by a newline), read into a namespace that already lists `ns0`, yields one tree per
+    statement, in order, each with the structure / rooting / weight of its own statement; labels resolve to the
+    existing namespace members and new ones are appended in reading order (`addAll`).  Hypotheses: consistent
+    options; every tree is `OkT`, writes something, has a number text as weight and no taxon label twice; over the
+    old namespace and all taxon labels, labels equal up to the case folding are equal (`CaseCons`). -/
+theorem newick_list_roundtrip (o : WOpts) (ro : ROpts) (hc : Consistent o.ps o.uu ro.pu) (ns0 : List Str)
+    (x : WT) (xs : List WT)
+    (hok : ∀ y ∈ x :: xs, OkT o y.2.2 ∧ WritesSomething o y.2.2 ∧ (∀ w, y.2.1 = some w → WeightOk w) ∧
+      (taxaOf ro (toRT o y.2.2)).Nodup)
+    (hU : CaseCons ro.cf (ns0 ++ allTaxa o ro (x :: xs))) :
+    parseText ro ⟨[], ns0, false⟩ (listText o (x :: xs)) =
+      some ((x :: xs).map (resultOf o ro), ⟨[], addAll ns0 (allTaxa o ro (x :: xs)), false⟩) := by
+  obtain ⟨gs, hg, htok⟩ := list_tokens o ro.pu hc x xs (fun y hy => ⟨(hok y hy).1, (hok y hy).2.1, (hok y hy).2.2.1⟩)
+  have hlen := groups_len o (x :: xs) gs hg
+  have hp := parse_groups o ro (ns0 ++ allTaxa o ro (x :: xs)) hU (x :: xs) gs hg
+    (fun y hy => ⟨(hok y hy).2.1, (hok y hy).2.2.2, fun z hz => by
+      simp only [allTaxa, List.mem_append, List.mem_flatMap]
+      exact Or.inr ⟨y, hy, hz⟩⟩)
+    ⟨[], ns0, false⟩ [] (gs.flatten.length + 2 + 0) true rfl (Or.inl rfl) (fun z hz => by simp [hz]) (by omega) (by simp)
+  unfold parseText parseTextK
+  simp only [Nat.add_zero] at hp ⊢
+  rw [show tokenize ro.pu ((listText o (x :: xs)).length + 1) (listText o (x :: xs)) = tokenizeAll ro.pu (listText o (x :: xs)) from rfl,
+    htok]
+  simp only [Bool.not_true, Bool.false_eq_true, if_false]
+  rw [hp]
+  simp
+
+open Aux in
+/-- …and in readable form: under the default label options, for trees that carry only what a statement can carry,
+    the trees that come back are the trees that were written -/
+theorem newick_list_roundtrip_trees (o : WOpts) (ro : ROpts) (hc : Consistent o.ps o.uu ro.pu)
+    (ho : o.sltl = false ∧ o.slnl = true ∧ o.sitl = false ∧ o.sinl = false ∧ o.sel = false) (ns0 : List Str)
+    (x : WT) (xs : List WT)
+    (hok : ∀ y ∈ x :: xs, OkT o y.2.2 ∧ WritesSomething o y.2.2 ∧ (∀ w, y.2.1 = some w → WeightOk w) ∧
+      (taxaOf ro (toRT o y.2.2)).Nodup ∧ Carried ro y.2.2)
+    (hU : CaseCons ro.cf (ns0 ++ allTaxa o ro (x :: xs))) :
+    parseText ro ⟨[], ns0, false⟩ (listText o (x :: xs)) =
+      some ((x :: xs).map (fun y => ⟨(treeComments ro (comments o y.1 y.2.1) none none).1,
+                                     (treeComments ro (comments o y.1 y.2.1) none none).2, y.2.2⟩),
+            ⟨[], addAll ns0 (allTaxa o ro (x :: xs)), false⟩) := by
+  rw [newick_list_roundtrip o ro hc ns0 x xs (fun y hy => ⟨(hok y hy).1, (hok y hy).2.1, (hok y hy).2.2.1, (hok y hy).2.2.2.1⟩) hU]
+  congr 2
+  apply List.map_congr_left
+  intro y hy
+  simp only [resultOf]
+  rw [carried_tree o ro ho y.2.2 (hok y hy).2.2.2.2]
+
+open Aux in
+/-- NEXUS, TREE statements without TRANSLATE: the Newick statements of a TREES block, read with the NEXUS symbol
+    mapper (taxon-number lookup ENABLED) over the namespace the TAXA block declared, which lists every taxon label:
+    every label resolves to its namespace member — by label, before any taxon number, so digit-only labels such as
+    `2`, `1`, `3` are safe — the namespace is unchanged, and the trees come back as in `newick_list_roundtrip`.
+    `_partial`: the block grammar around the statements (`BEGIN TREES;`, `TREE name =`, `END;`, the TAXA block) is
+    not in the model; the text is the statements as the harness cuts them out of the written document. -/
+theorem nexus_statements_roundtrip_partial (o : WOpts) (ro : ROpts) (hc : Consistent o.ps o.uu ro.pu) (ns0 : List Str)
+    (x : WT) (xs : List WT)
+    (hok : ∀ y ∈ x :: xs, OkT o y.2.2 ∧ WritesSomething o y.2.2 ∧ (∀ w, y.2.1 = some w → WeightOk w) ∧
+      (taxaOf ro (toRT o y.2.2)).Nodup)
+    (hin : ∀ z ∈ allTaxa o ro (x :: xs), z ∈ ns0) (hU : CaseCons ro.cf ns0) :
+    parseText ro ⟨[], ns0, true⟩ (listText o (x :: xs)) = some ((x :: xs).map (resultOf o ro), ⟨[], ns0, true⟩) := by
+  obtain ⟨gs, hg, htok⟩ := list_tokens o ro.pu hc x xs (fun y hy => ⟨(hok y hy).1, (hok y hy).2.1, (hok y hy).2.2.1⟩)
+  have hlen := groups_len o (x :: xs) gs hg
+  have hp := parse_groups o ro ns0 hU (x :: xs) gs hg
+    (fun y hy => ⟨(hok y hy).2.1, (hok y hy).2.2.2, fun z hz => hin z (by
+      simp only [allTaxa, List.mem_flatMap]
+      exact ⟨y, hy, hz⟩)⟩)
+    ⟨[], ns0, true⟩ [] (gs.flatten.length + 2 + 0) true rfl (Or.inr (fun z hz => hz)) (fun z hz => hz) (by omega) (by simp)
+  unfold parseText parseTextK
+  simp only [Nat.add_zero] at hp ⊢
+  rw [show tokenize ro.pu ((listText o (x :: xs)).length + 1) (listText o (x :: xs)) = tokenizeAll ro.pu (listText o (x :: xs)) from rfl,
+    htok]
+  simp only [Bool.not_true, Bool.false_eq_true, if_false]
+  rw [hp, addAll_of_mem _ _ hin]
+  simp
+
+open Aux in
+/-- NEXUS, TREE statements WITH a TRANSLATE table: the statements are written with tokens in place of taxon labels;
+    read with a symbol mapper that holds the table `tm` (token ↦ label), every tag that has an entry resolves
+    through the table — before labels and before taxon numbers — to `resolve … tm tag`, the mapper (namespace
+    included) is unchanged, and each tree comes back with its structure, rooting and weight, its taxa sent through
+    the table (`decodeWith`).  `_partial`: the TRANSLATE statement text and the block grammar are not in the model
+    (the table is handed over as the writer built it); see `resolve_key` for `resolve` on the writer's own table. -/
+theorem nexus_translate_roundtrip_partial (o : WOpts) (ro : ROpts) (hc : Consistent o.ps o.uu ro.pu) (m : Mapper)
+    (x : WT) (xs : List WT)
+    (hok : ∀ y ∈ x :: xs, OkT o y.2.2 ∧ WritesSomething o y.2.2 ∧ (∀ w, y.2.1 = some w → WeightOk w) ∧
+      ((taxaOf ro (toRT o y.2.2)).map (resolve ro.cf m.tokmap)).Nodup ∧
+      ∀ w ∈ taxaOf ro (toRT o y.2.2), hasKey ro.cf m.tokmap w) :
+    parseText ro m (listText o (x :: xs)) = some ((x :: xs).map (resultWith (resolve ro.cf m.tokmap) o ro), m) := by
+  obtain ⟨gs, hg, htok⟩ := list_tokens o ro.pu hc x xs (fun y hy => ⟨(hok y hy).1, (hok y hy).2.1, (hok y hy).2.2.1⟩)
+  have hlen := groups_len o (x :: xs) gs hg
+  have hp := parse_groups_const o ro (resolve ro.cf m.tokmap) m (x :: xs) gs hg
+    (fun y hy => ⟨(hok y hy).2.1, (hok y hy).2.2.2.1, fun w hw => lookup_token ro.cf m w ((hok y hy).2.2.2.2 w hw)⟩)
+    [] (gs.flatten.length + 2 + 0) true (by omega) (by simp)
+  unfold parseText parseTextK
+  simp only [Nat.add_zero] at hp ⊢
+  rw [show tokenize ro.pu ((listText o (x :: xs)).length + 1) (listText o (x :: xs)) = tokenizeAll ro.pu (listText o (x :: xs)) from rfl,
+    htok]
+  simp only [Bool.not_true, Bool.false_eq_true, if_false]
+  rw [hp]
+  simp
+
+/-- `resolve` on a table whose keys are pairwise different up to the case folding: each key gives its own label -/
+theorem resolve_key (cf : Char → Char) : ∀ (tm : List (Str × Str)), DistinctCI cf (tm.map (·.1)) →
+    ∀ p ∈ tm, resolve cf tm p.1 = p.2
+  | [], _, p, hp => by simp at hp
+  | q :: tm, hd, p, hp => by
+    simp only [List.mem_cons] at hp
+    rcases hp with rfl | hp
+    · simp [resolve, List.find?]
+    · have hne : lowerWith cf q.1 ≠ lowerWith cf p.1 := hd.1 p.1 (List.mem_map_of_mem hp)
+      have ih := resolve_key cf tm hd.2 p hp
+      unfold resolve at ih ⊢
+      have : (lowerWith cf q.1 == lowerWith cf p.1) = false := by simpa using hne
+      simp only [List.find?, this]
+      exact ih
 
 /-! ### non-vacuity: the hypotheses are satisfiable, on trees with awkward labels and anonymous leaves -/
 
@@ -305,5 +521,72 @@ example : ∃ q r', nextTok false (escape false true protectDefault "a-b c".toLi
     (Or.inr ⟨'\n', [';'], rfl, Or.inr (by decide)⟩)
 example : ∃ q r', nextTok true (escape true false protectNewick "x_y".toList ++ []) = .tok "x_y".toList q [] r' ∧ skipWs r' = skipWs [] :=
   token_roundtrip_any protectNewick (Or.inr rfl) true true true (by simp [Consistent]) _ (by simp) (by decide) _ (Or.inl rfl)
+
+/-- two statements sharing a taxon (the second with a trailing anonymous leaf), to be read into a namespace that
+    already has one of the labels -/
+def exTree1 : WT := (2, none, .node none (some "x".toList) none
+      [.node (some "A".toList) none (some "1.5".toList) [], .node (some "B".toList) none none []])
+def exTree2 : WT := (1, none, .node none none none
+      [.node (some "B".toList) none none [], .node (some "c_d".toList) none (some "2".toList) [], .node none none none []])
+
+example : parseText {} ⟨[], ["B".toList], false⟩ (listText {} [exTree1, exTree2]) =
+    some ([⟨2, none, exTree1.2.2⟩, ⟨1, none, exTree2.2.2⟩], ⟨[], ["B".toList, "A".toList, "c_d".toList], false⟩) := by
+  have h := newick_list_roundtrip_trees {} {} (by simp [Consistent]) (by simp) ["B".toList] exTree1 [exTree2]
+    (by
+      intro y hy
+      simp at hy
+      rcases hy with rfl | rfl
+      · refine ⟨?_, ?_, by simp [exTree1], ?_, ?_⟩
+        · simp [exTree1, OkT, OkL, rawTag, joinSp, LenOk]; decide
+        · simp [exTree1, WritesSomething, Aux.toRT, Aux.toRTL, Aux.isBlank]
+        · simp [exTree1, Aux.toRT, Aux.toRTL, taxaOf, taxaOfL, Aux.tagOf, Aux.lenOf, rawTag, joinSp]
+        · simp [exTree1, Carried, Carried.CarriedL]
+      · refine ⟨?_, ?_, by simp [exTree2], ?_, ?_⟩
+        · simp [exTree2, OkT, OkL, rawTag, joinSp, LenOk]; decide
+        · simp [exTree2, WritesSomething, Aux.toRT, Aux.toRTL, Aux.isBlank]
+        · simp [exTree2, Aux.toRT, Aux.toRTL, taxaOf, taxaOfL, Aux.tagOf, Aux.lenOf, rawTag, joinSp]
+        · simp [exTree2, Carried, Carried.CarriedL])
+    (by
+      simp [CaseCons, Aux.allTaxa, exTree1, exTree2, Aux.toRT, Aux.toRTL, taxaOf, taxaOfL, Aux.tagOf, Aux.lenOf, rawTag, joinSp, lowerWith])
+  rw [h]
+  simp [exTree1, exTree2, Aux.allTaxa, Aux.addAll, Aux.nsAdd, Aux.toRT, Aux.toRTL, taxaOf, taxaOfL, Aux.tagOf, Aux.lenOf, rawTag, joinSp,
+    comments, treeComments, isRootingComment, rootingState, strip, stripL, isSpace]
+
+/-- digit-only labels in a NEXUS namespace (`2`, `1`, `3` in that order): resolved by label, not by taxon number -/
+def exDigits : WT := (2, none, .node none none none
+  [.node none none (some "1.0".toList) [.node (some "2".toList) none (some "1.5".toList) [], .node (some "1".toList) none (some "2.5".toList) []],
+   .node (some "3".toList) none (some "3.5".toList) []])
+
+example : parseText {} ⟨[], ["2".toList, "1".toList, "3".toList], true⟩ (listText {} [exDigits]) =
+    some ([Aux.resultOf {} {} exDigits], ⟨[], ["2".toList, "1".toList, "3".toList], true⟩) :=
+  nexus_statements_roundtrip_partial {} {} (by simp [Consistent]) _ exDigits []
+    (by
+      intro y hy
+      simp at hy; subst hy
+      refine ⟨?_, ?_, by simp [exDigits], ?_⟩
+      · simp [exDigits, OkT, OkL, rawTag, joinSp, LenOk]; decide
+      · simp [exDigits, WritesSomething, Aux.toRT, Aux.toRTL, Aux.isBlank]
+      · simp [exDigits, Aux.toRT, Aux.toRTL, taxaOf, taxaOfL, Aux.tagOf, Aux.lenOf, rawTag, joinSp])
+    (by simp [Aux.allTaxa, exDigits, Aux.toRT, Aux.toRTL, taxaOf, taxaOfL, Aux.tagOf, Aux.lenOf, rawTag, joinSp])
+    (by simp [CaseCons, lowerWith])
+
+/-- the same tree written through the TRANSLATE table `1 ↦ 2, 2 ↦ 1, 3 ↦ 3` (tokens = accession index + 1) -/
+def exTokens : WT := (2, none, .node none none none
+  [.node (some "1".toList) none none [], .node (some "2".toList) none none [], .node (some "3".toList) none none []])
+def exTable : List (Str × Str) := [("1".toList, "2".toList), ("2".toList, "1".toList), ("3".toList, "3".toList)]
+
+example : parseText {} ⟨exTable, ["2".toList, "1".toList, "3".toList], true⟩ (listText {} [exTokens]) =
+    some ([Aux.resultWith (resolve Char.toLower exTable) {} {} exTokens], ⟨exTable, ["2".toList, "1".toList, "3".toList], true⟩) :=
+  nexus_translate_roundtrip_partial {} {} (by simp [Consistent]) ⟨exTable, _, true⟩ exTokens []
+    (by
+      intro y hy
+      simp at hy; subst hy
+      refine ⟨?_, ?_, by simp [exTokens], ?_, ?_⟩
+      · simp [exTokens, OkT, OkL, rawTag, joinSp, LenOk]; decide
+      · simp [exTokens, WritesSomething, Aux.toRT, Aux.toRTL, Aux.isBlank]
+      · simp [exTokens, exTable, Aux.toRT, Aux.toRTL, taxaOf, taxaOfL, Aux.tagOf, Aux.lenOf, rawTag, joinSp, resolve, lowerWith]
+      · simp [exTokens, exTable, Aux.toRT, Aux.toRTL, taxaOf, taxaOfL, Aux.tagOf, Aux.lenOf, rawTag, joinSp, hasKey, lowerWith])
+example : resolve Char.toLower exTable "1".toList = "2".toList :=
+  resolve_key Char.toLower exTable (by simp [exTable, DistinctCI, lowerWith]) ("1".toList, "2".toList) (by simp [exTable])
 
 end DendroModel.C02
